@@ -837,6 +837,9 @@ def run_lines_stream(prop, stream, tier, seed, workdir, scale=1):
             "model_runs": int(m.group(1)) if m else 0}
 
 
+HAMMER_TIMEOUT = 150
+
+
 def run_hammer_stream(prop, stream, tier, seed, workdir, scale=1):
     """free-running real threads on plain generated functions whose results are stored: any body execution or
     wrong value is a violation (holds for every schedule); silence proves nothing"""
@@ -849,12 +852,15 @@ def run_hammer_stream(prop, stream, tier, seed, workdir, scale=1):
     for r in range(reps * scale):
         try:
             p = subprocess.run([os.path.join(BIN, "hammer"), str(seed + r), str(threads), str(rounds)], stdout=subprocess.PIPE,
-                               stderr=subprocess.PIPE, env=ENV, text=True, timeout=900)
+                               stderr=subprocess.PIPE, env=ENV, text=True, timeout=HAMMER_TIMEOUT)
         except subprocess.TimeoutExpired:
-            verdicts.append({"kind": "MON", "id": "C17", "episode": 0, "step": 0, "raw": [f"# hammer {seed + r} {threads} {rounds}"],
-                             "text": f"MON C17 :: free-running threads calling cached functions and invalidating them did not finish within 900 s (deadlock or livelock)"})
-            verdicts.append({"kind": "BAD", "id": None, "episode": 0, "step": 0, "text": "hammer did not finish within 900 s"})
-            continue
+            # a normal run takes seconds; a run that does not finish is a deadlock / livelock of the real code (some call never
+            # returns).  One is enough: the remaining repetitions would only wait for the same timeout again.
+            for pid in ("C17", "C20"):
+                verdicts.append({"kind": "MON", "id": pid, "episode": 0, "step": 0, "raw": [f"# hammer {seed + r} {threads} {rounds}"],
+                                 "text": f"MON {pid} :: free-running threads calling cached functions (incl. expired lookups racing with stores) and invalidating them did not finish within {HAMMER_TIMEOUT} s: some call never returns (deadlock or livelock)"})
+            verdicts.append({"kind": "BAD", "id": None, "episode": 0, "step": 0, "text": f"hammer did not finish within {HAMMER_TIMEOUT} s"})
+            break
         if p.returncode != 0:
             verdicts.append({"kind": "BAD", "id": None, "episode": 0, "step": 0, "text": f"hammer exited {p.returncode}: {p.stderr[-300:]}"})
             continue
